@@ -146,6 +146,40 @@ def reviewedModuleWrites : List ((String × String × String × String) × Memo)
   (("module", "elementpath/validators/__init__.py", "validate_analyzed_string", "global analyzed_string_schema ="), .static),
   (("module", "elementpath/validators/__init__.py", "validate_json_to_xml", "global json_to_xml_schema ="), .static)]
 
+/-! ### the focus of the caller's context (item, axis, position, size, variables)
+
+The scan classifies every store to the focus of a context outside xpath_context.py, and every loop
+over `context.iter_*()`, by how the caller's focus is protected (`copy`, `finally`, `focus-generator`,
+`iterator`), and every generator `iter_*` of XPathContext by whether it restores in a `finally`. -/
+
+/-- protections that make a focus site harmless for the caller: the receiver is a copy of the
+context; a later `finally` of the same function stores the attribute back; the store is driven by
+`select_with_focus` (which restores in its `finally`); the loop runs over an axis iterator of the
+context (which restores in its `finally`, see `iteratorOk`) -/
+def focusProtections : List String := ["copy", "finally", "focus-generator", "iterator"]
+
+/-- focus sites classified `unprotected` by the scan, read one by one (exact sites).
+C01's axis fixes (df7cdda / 1593003): the child axis of the dummy document and the following axis of an
+attribute / namespace item save, move and restore `context.item` / `context.axis` WITHOUT a `finally`.  Every
+caller inside the package drives these generators through a restoring one (`select_with_focus` of predicates, `!`
+and binary `/`; the `finally` of the unary `/`; `copy(context)` of function arguments), so no complete evaluation
+leaves the context moved (probed: `/child::*[error()]`, `@n/following::*[error()]`, `boolean(@n/following::*)` …);
+only a caller that abandons `token.select(ctx)` himself sees it.  Repaired with try/finally on branch fix-c05-7
+(pending): remove these four entries when it is picked. -/
+def reviewedFocusSites : List (String × String × String × String) := [
+  ("elementpath/xpath1/_xpath1_axes.py", "select__child_axis", "context.axis =", "unprotected"),
+  ("elementpath/xpath1/_xpath1_axes.py", "select__child_axis", "context.item =", "unprotected"),
+  ("elementpath/xpath1/_xpath1_axes.py", "select__following_axis", "context.axis =", "unprotected"),
+  ("elementpath/xpath1/_xpath1_axes.py", "select__following_axis", "context.item =", "unprotected")]
+
+def focusSiteOk (w : String × String × String × String) : Bool :=
+  match w with
+  | (_, _, _, prot) => decide (prot ∈ focusProtections) || decide (w ∈ reviewedFocusSites)
+
+def iteratorOk (w : String × String) : Bool :=
+  match w with
+  | (_, prot) => decide (prot = "finally") || decide (prot = "no-focus-write")
+
 /-- is a scanned write site (kind, file, function, site) acceptable? -/
 def treeWriteOk (w : String × String × String × String) : Bool :=
   match w with
